@@ -1,4 +1,5 @@
-import NdnModel.Cert
+import NdnModel.CertTime
+import NdnProofs.Lemmas.Calendar
 import NdnProofs.Lemmas.PacketEnc
 import NdnProofs.Props.C08
 /-!
@@ -7,9 +8,13 @@ import NdnProofs.Props.C08
 Model: `Ndn.Cert.newCert` (security_v2.new_cert: Value encoded with reserved signature space, the outer
 Type/Length written by hand around the Value minus the unused reserved bytes).  For every key name,
 issuer id, version, public key, validity instants and every signer behaviour.
+
+The validity period: `Ndn.Cert.Issue.instants` / `validity` (derive_cert, sign_req, self_sign over the calendar
+model `Ndn.Calendar`: CPython's proleptic Gregorian ordinal arithmetic, `datetime + timedelta`, `replace(year=…)`,
+`astimezone(UTC)`), `fmtInstant` (`strftime('%Y%m%dT%H%M%S')`, years 1000..9999).
 -/
 namespace Ndn.C16
-open Ndn Ndn.Codec Ndn.Packet Ndn.Cert
+open Ndn Ndn.Codec Ndn.Packet Ndn.Cert Ndn.Calendar
 
 /-- **cert_wire.** The certificate is exactly
     `tlv DATA (Name ++ MetaInfo ++ Content ++ SignatureInfo ++ tlv SIGNATURE_VALUE sig)`: one well-formed
@@ -126,8 +131,322 @@ theorem formatTime_inj (y mo d h mi s y' mo' d' h' mi' s' : Nat)
   have := digit_inj e13; have := digit_inj e14
   refine ⟨?_, ?_, ?_, ?_, ?_, ?_⟩ <;> omega
 
+/-! ### the calendar -/
+
+/-- **ord_ymd_roundtrip.** CPython's `_ymd2ord` and `_ord2ymd` are inverse bijections between the valid dates
+    (year ≥ 1, month 1..12, day 1..days-in-month) and the ordinals ≥ 1, and the dates of the years 1..9999 are
+    exactly the ordinals 1..`_MAXORDINAL`:
+    `date.fromordinal(date(y, m, d).toordinal()) == date(y, m, d)` and `date.fromordinal(n).toordinal() == n`. -/
+theorem ord_ymd_roundtrip :
+    (∀ y m d, validYmd y m d → ord2ymd (ymd2ord y m d) = (y, m, d)) ∧
+    (∀ n, 1 ≤ n → validYmd (ord2ymd n).1 (ord2ymd n).2.1 (ord2ymd n).2.2 ∧
+      ymd2ord (ord2ymd n).1 (ord2ymd n).2.1 (ord2ymd n).2.2 = n) ∧
+    (∀ y m d, validYmd y m d → y ≤ 9999 → 1 ≤ ymd2ord y m d ∧ ymd2ord y m d ≤ maxOrdinal) ∧
+    (∀ n, 1 ≤ n → n ≤ maxOrdinal → (ord2ymd n).1 ≤ 9999) :=
+  ⟨ord2ymd_ymd2ord, ord2ymd_sound,
+   fun y m d h hy => ⟨by unfold ymd2ord; have := h.2.2.2.1; omega, ymd2ord_le_max y m d h hy⟩,
+   ord2ymd_year_le⟩
+
+/-- **addSeconds_spec.** `dt + timedelta(seconds=n)` (any integer `n`, negative or beyond a day) is the instant
+    exactly `n` seconds later — ordinal * 86400 + second-of-day arithmetic, microsecond untouched — and raises
+    `OverflowError` exactly when that instant is before 0001-01-01T00:00:00 or after 9999-12-31T23:59:59. -/
+theorem addSeconds_spec (t : Instant) (n : Int) (ht : t.valid) :
+    (∀ t', addSeconds t n = .ok t' ↔ t'.valid ∧ t'.abs = t.abs + n ∧ t'.us = t.us) ∧
+    (∀ e, addSeconds t n = .error e ↔
+      e = .overflowError ∧ (t.abs + n < 86400 ∨ (maxOrdinal + 1) * 86400 ≤ t.abs + n)) := by
+  refine ⟨fun t' => addSeconds_ok_iff t t' n ht, fun e => ⟨fun h => ?_, ?_⟩⟩
+  · have := addSeconds_error t n e h
+    subst this
+    exact ⟨rfl, (addSeconds_error_iff t n ht).1 h⟩
+  · rintro ⟨rfl, h⟩; exact (addSeconds_error_iff t n ht).2 h
+
+/-- **addYears_spec.** `dt.replace(year=dt.year + k)` keeps month, day, time of day and microsecond, and raises
+    `ValueError` exactly when the year would exceed 9999 or the date is 29 February and the target year is not
+    a leap year. -/
+theorem addYears_spec (t : Instant) (k : Nat) (ht : t.valid) :
+    (∀ t', addYears t k = .ok t' ↔
+      ((ord2ymd t.ord).1 + k ≤ 9999 ∧
+        ¬ ((ord2ymd t.ord).2.1 = 2 ∧ (ord2ymd t.ord).2.2 = 29 ∧ isLeap ((ord2ymd t.ord).1 + k) = false)) ∧
+      t'.valid ∧ ord2ymd t'.ord = ((ord2ymd t.ord).1 + k, (ord2ymd t.ord).2.1, (ord2ymd t.ord).2.2) ∧
+      t'.sec = t.sec ∧ t'.us = t.us) ∧
+    (∀ e, addYears t k = .error e ↔ e = .valueError ∧
+      (9999 < (ord2ymd t.ord).1 + k ∨
+        ((ord2ymd t.ord).2.1 = 2 ∧ (ord2ymd t.ord).2.2 = 29 ∧ isLeap ((ord2ymd t.ord).1 + k) = false))) :=
+  ⟨fun t' => addYears_ok_iff t t' k ht, fun e => addYears_error_iff t k e ht⟩
+
+/-- **toUtc_spec.** `astimezone(UTC)` of a datetime `o` minutes ahead of UTC is the valid instant with the same
+    microsecond designating the same moment (a naive datetime is taken as it is); the only error is
+    `OverflowError` (the UTC reading leaves the years 1..9999). -/
+theorem toUtc_spec (t : Instant) (off : Option Int) (ht : t.valid) :
+    (∀ u, toUtc t off = .ok u ↔ u.valid ∧ u.abs = utcAbs t off ∧ u.us = t.us) ∧
+    (∀ e, toUtc t off = .error e → e = .overflowError) :=
+  ⟨fun u => toUtc_ok_iff t u off ht, fun e h => toUtc_error t off ht e h⟩
+
+/-! ### validity period = the requested instants -/
+
+/-- **fmtInstant_inj.** The 15-character text determines the instant (to the second): two valid instants with
+    the same `YYYYMMDDTHHMMSS` text have the same ordinal and second of the day. -/
+theorem fmtInstant_inj (s t : Instant) (hs : s.valid) (ht : t.valid) (e : fmtInstant s = fmtInstant t) :
+    s.ord = t.ord ∧ s.sec = t.sec := by
+  have rs := fields_range s hs
+  have rt := fields_range t ht
+  unfold fmtInstant at e
+  have := formatTime_inj _ _ _ _ _ _ _ _ _ _ _ _ (by omega) (by omega) (by omega) (by omega) (by omega) (by omega)
+    (by omega) (by omega) (by omega) (by omega) (by omega) (by omega) e
+  obtain ⟨e1, e2, e3, e4, e5, e6⟩ := this
+  exact fields_inj s t hs ht (Prod.ext e1 (Prod.ext e2 (Prod.ext e3 (Prod.ext e4 (Prod.ext e5 e6)))))
+
+theorem fmtInstant_abs_inj (s t : Instant) (hs : s.valid) (ht : t.valid) (e : fmtInstant s = fmtInstant t) :
+    s.abs = t.abs := by
+  obtain ⟨h1, h2⟩ := fmtInstant_inj s t hs ht e
+  unfold Instant.abs; rw [h1, h2]
+
+/-- the years 1000..9999, where `strftime('%Y…')` prints the four digits of `fmtInstant`, are the ordinals from
+    364878 (= 1000-01-01) on -/
+theorem fmt_domain (t : Instant) (ht : t.valid) : 1000 ≤ (fields t).1 ↔ minFmtOrdinal ≤ t.ord :=
+  year_ge_1000_iff t.ord ht.1
+
+theorem utcPair_ok_iff (a : Instant) (ao : Option Int) (b : Instant) (bo : Option Int) (s e : Instant) :
+    utcPair a ao b bo = .ok (s, e) ↔ toUtc a ao = .ok s ∧ toUtc b bo = .ok e := by
+  unfold utcPair
+  simp only [bind, Except.bind, pure, Except.pure]
+  cases toUtc a ao with
+  | error x => simp
+  | ok s' =>
+    cases toUtc b bo with
+    | error x => simp
+    | ok e' => simp
+
+theorem utcPair_error (a : Instant) (ao : Option Int) (b : Instant) (bo : Option Int) (ha : a.valid) (hb : b.valid)
+    (x : PyErr) (h : utcPair a ao b bo = .error x) : x = .overflowError := by
+  unfold utcPair at h
+  simp only [bind, Except.bind, pure, Except.pure] at h
+  cases h1 : toUtc a ao with
+  | error y => rw [h1] at h; cases h; exact toUtc_error a ao ha _ h1
+  | ok s' =>
+    rw [h1] at h
+    cases h2 : toUtc b bo with
+    | error y => rw [h2] at h; cases h; exact toUtc_error b bo hb _ h2
+    | ok e' => rw [h2] at h; cases h
+
+/-- **derive_instants.** `derive_cert(…, start_time, expire_sec)` with the start reading `start` (naive, or aware
+    and `o` minutes ahead of UTC) writes a validity period for the UTC instants `s`, `e` iff `s` is the requested
+    start moment, `e` is exactly `expire_sec` seconds later, and the intermediate wall-clock end
+    `start_time + timedelta(seconds=expire_sec)` stays within the years 1..9999; every failure is `OverflowError`. -/
+theorem derive_instants (start : Instant) (off : Option Int) (n : Int) (hst : start.valid) :
+    (∀ s e, (Issue.derive start off n).instants = .ok (s, e) ↔
+      (86400 ≤ start.abs + n ∧ start.abs + n < (maxOrdinal + 1) * 86400) ∧
+      s.valid ∧ s.abs = utcAbs start off ∧ s.us = start.us ∧
+      e.valid ∧ e.abs = utcAbs start off + n ∧ e.us = start.us) ∧
+    (∀ x, (Issue.derive start off n).instants = .error x → x = .overflowError) := by
+  refine ⟨fun s e => ?_, fun x h => ?_⟩
+  · simp only [Issue.instants, bind, Except.bind]
+    cases h1 : addSeconds start n with
+    | error y =>
+      have hy := addSeconds_error start n y h1
+      subst hy
+      have := (addSeconds_error_iff start n hst).1 h1
+      simp only
+      constructor
+      · intro h; cases h
+      · rintro ⟨⟨r1, r2⟩, _⟩; omega
+    | ok el =>
+      obtain ⟨hel, hab, hus⟩ := (addSeconds_ok_iff start el n hst).1 h1
+      simp only
+      rw [utcPair_ok_iff start off el off, toUtc_ok_iff start s off hst, toUtc_ok_iff el e off hel]
+      have hu : utcAbs el off = utcAbs start off + n := by
+        cases off <;> simp only [utcAbs] <;> omega
+      rw [hu, hus]
+      have hr : 86400 ≤ start.abs + n ∧ start.abs + n < (maxOrdinal + 1) * 86400 := by
+        obtain ⟨a1, a2, a3, a4⟩ := hel
+        unfold Instant.abs maxOrdinal at *; omega
+      constructor
+      · rintro ⟨⟨a, b, c⟩, d, e', f⟩; exact ⟨hr, a, b, c, d, e', f⟩
+      · rintro ⟨_, a, b, c, d, e', f⟩; exact ⟨⟨a, b, c⟩, d, e', f⟩
+  · simp only [Issue.instants, bind, Except.bind] at h
+    cases h1 : addSeconds start n with
+    | error y => rw [h1] at h; cases h; exact addSeconds_error start n _ h1
+    | ok el =>
+      rw [h1] at h
+      exact utcPair_error start off el off hst ((addSeconds_ok_iff start el n hst).1 h1).1 x h
+
+/-- **validity_encodes_requested_instants.** When `derive_cert` produces a validity period (NotBefore, NotAfter),
+    these are the `YYYYMMDDTHHMMSS` texts of the UTC instants `t` (the requested start, naive-as-UTC or aware with
+    offset `o`) and `t + expire_sec`, and — the text being injective — any pair of valid instants with these two
+    texts are the requested moments, to the second: the validity period encodes exactly the requested instants. -/
+theorem validity_encodes_requested_instants (start : Instant) (off : Option Int) (n : Int) (hst : start.valid)
+    (nb na : Bytes) (h : (Issue.derive start off n).validity = .ok (nb, na)) :
+    ∃ s e : Instant, s.valid ∧ e.valid ∧ s.abs = utcAbs start off ∧ e.abs = utcAbs start off + n ∧
+      nb = fmtInstant s ∧ na = fmtInstant e ∧
+      ∀ s' e' : Instant, s'.valid → e'.valid → fmtInstant s' = nb → fmtInstant e' = na →
+        s'.abs = utcAbs start off ∧ e'.abs = utcAbs start off + n := by
+  unfold Issue.validity at h
+  simp only [bind, Except.bind, pure, Except.pure] at h
+  cases hi : (Issue.derive start off n).instants with
+  | error x => rw [hi] at h; cases h
+  | ok se =>
+    obtain ⟨s, e⟩ := se
+    rw [hi] at h
+    simp only [Except.ok.injEq, Prod.mk.injEq] at h
+    obtain ⟨_, hs, hsa, _, he, hea, _⟩ := ((derive_instants start off n hst).1 s e).1 hi
+    refine ⟨s, e, hs, he, hsa, hea, h.1.symm, h.2.symm, fun s' e' hs' he' e1 e2 => ⟨?_, ?_⟩⟩
+    · rw [← hsa]; exact fmtInstant_abs_inj s' s hs' hs (by rw [e1, h.1])
+    · rw [← hea]; exact fmtInstant_abs_inj e' e he' he (by rw [e2, h.2])
+
+/-- **req_instants.** `sign_req` with the two clock readings `now1`, `now2` (UTC): NotBefore is `now2`, NotAfter
+    exactly 10 days after `now1`; `OverflowError` iff that is after 9999-12-31. -/
+theorem req_instants (now1 now2 : Instant) (h1 : now1.valid) (h2 : now2.valid) :
+    (∀ s e, (Issue.req now1 now2).instants = .ok (s, e) ↔
+      s = now2 ∧ e.valid ∧ e.abs = now1.abs + 864000 ∧ e.us = now1.us) ∧
+    (∀ x, (Issue.req now1 now2).instants = .error x ↔
+      x = .overflowError ∧ (maxOrdinal + 1) * 86400 ≤ now1.abs + 864000) := by
+  have h0 : ∀ t : Instant, t.valid → toUtc t (some 0) = .ok t := by
+    intro t ht; rw [toUtc_ok_iff t t (some 0) ht]; exact ⟨ht, by simp [utcAbs], rfl⟩
+  refine ⟨fun s e => ?_, fun x => ?_⟩
+  · simp only [Issue.instants, bind, Except.bind]
+    cases ha : addSeconds now1 (10 * 86400) with
+    | error y =>
+      simp only
+      constructor
+      · intro h; cases h
+      · rintro ⟨_, hv, hab, hus⟩
+        have := (addSeconds_ok_iff now1 e (10 * 86400) h1).2 ⟨hv, by omega, hus⟩
+        rw [this] at ha; cases ha
+    | ok el =>
+      obtain ⟨hel, hab, hus⟩ := (addSeconds_ok_iff now1 el _ h1).1 ha
+      simp only
+      rw [utcPair_ok_iff now2 _ el _, h0 now2 h2, h0 el hel]
+      simp only [Except.ok.injEq]
+      constructor
+      · rintro ⟨rfl, rfl⟩; exact ⟨rfl, hel, by omega, hus⟩
+      · rintro ⟨rfl, hv, hab', hus'⟩
+        refine ⟨rfl, ?_⟩
+        obtain ⟨_, _, _, _⟩ := hv; obtain ⟨_, _, _, _⟩ := hel
+        unfold Instant.abs at hab hab'
+        apply Instant.ext' <;> omega
+  · simp only [Issue.instants, bind, Except.bind]
+    cases ha : addSeconds now1 (10 * 86400) with
+    | error y =>
+      have hy := addSeconds_error now1 _ y ha
+      subst hy
+      have := (addSeconds_error_iff now1 _ h1).1 ha
+      simp only [Except.error.injEq]
+      constructor
+      · rintro rfl
+        refine ⟨rfl, ?_⟩
+        obtain ⟨_, _, _, _⟩ := h1
+        unfold Instant.abs at *; omega
+      · rintro ⟨rfl, _⟩; rfl
+    | ok el =>
+      obtain ⟨hel, hab, hus⟩ := (addSeconds_ok_iff now1 el _ h1).1 ha
+      simp only
+      constructor
+      · intro h
+        have := utcPair_error now2 _ el _ h2 hel x h
+        exfalso
+        have hp : utcPair now2 (some 0) el (some 0) = .ok (now2, el) :=
+          (utcPair_ok_iff now2 _ el _ now2 el).2 ⟨h0 now2 h2, h0 el hel⟩
+        rw [hp] at h; cases h
+      · rintro ⟨_, hge⟩
+        obtain ⟨_, a2, a3, _⟩ := hel
+        unfold Instant.abs maxOrdinal at *; omega
+
+theorem epoch_valid : epoch.valid := by decide
+
+/-- **self_instants.** `self_sign` with the clock reading `now` (UTC): NotBefore is 1970-01-01T00:00:00, NotAfter
+    the same month, day and time of day 20 years later — and the precise error case: `ValueError` iff the year
+    would exceed 9999, or today is 29 February and the year 20 years on is not a leap year (2080 → 2100). -/
+theorem self_instants (now : Instant) (hn : now.valid) :
+    (∀ s e, (Issue.self now).instants = .ok (s, e) ↔
+      s = epoch ∧ e.valid ∧
+      ord2ymd e.ord = ((ord2ymd now.ord).1 + 20, (ord2ymd now.ord).2.1, (ord2ymd now.ord).2.2) ∧
+      e.sec = now.sec ∧ e.us = now.us ∧
+      ((ord2ymd now.ord).1 + 20 ≤ 9999 ∧
+        ¬ ((ord2ymd now.ord).2.1 = 2 ∧ (ord2ymd now.ord).2.2 = 29 ∧ isLeap ((ord2ymd now.ord).1 + 20) = false))) ∧
+    (∀ x, (Issue.self now).instants = .error x ↔ x = .valueError ∧
+      (9999 < (ord2ymd now.ord).1 + 20 ∨
+        ((ord2ymd now.ord).2.1 = 2 ∧ (ord2ymd now.ord).2.2 = 29 ∧ isLeap ((ord2ymd now.ord).1 + 20) = false))) := by
+  have h0 : ∀ t : Instant, t.valid → toUtc t (some 0) = .ok t := by
+    intro t ht; rw [toUtc_ok_iff t t (some 0) ht]; exact ⟨ht, by simp [utcAbs], rfl⟩
+  refine ⟨fun s e => ?_, fun x => ?_⟩
+  · simp only [Issue.instants, bind, Except.bind]
+    cases ha : addYears now 20 with
+    | error y =>
+      simp only
+      constructor
+      · intro h; cases h
+      · rintro ⟨_, hv, ho, hs, hu, hc⟩
+        have := (addYears_ok_iff now e 20 hn).2 ⟨hc, hv, ho, hs, hu⟩
+        rw [this] at ha; cases ha
+    | ok el =>
+      obtain ⟨hc, hel, ho, hs, hu⟩ := (addYears_ok_iff now el 20 hn).1 ha
+      simp only
+      rw [utcPair_ok_iff epoch none el _, h0 el hel]
+      simp only [toUtc, Except.ok.injEq]
+      constructor
+      · rintro ⟨rfl, rfl⟩; exact ⟨rfl, hel, ho, hs, hu, hc⟩
+      · rintro ⟨rfl, hv, ho', hs', hu', _⟩
+        refine ⟨rfl, ?_⟩
+        exact Instant.ext' (ord2ymd_inj _ _ hel.1 hv.1 (by rw [ho, ho'])) (by omega) (by omega)
+  · simp only [Issue.instants, bind, Except.bind]
+    cases ha : addYears now 20 with
+    | error y =>
+      simp only [Except.error.injEq]
+      have := (addYears_error_iff now 20 y hn).1 ha
+      constructor
+      · rintro rfl; exact this
+      · rintro ⟨rfl, _⟩; exact this.1
+    | ok el =>
+      obtain ⟨hc, hel, ho, hs, hu⟩ := (addYears_ok_iff now el 20 hn).1 ha
+      simp only
+      constructor
+      · intro h
+        exfalso
+        have hp : utcPair epoch none el (some 0) = .ok (epoch, el) :=
+          (utcPair_ok_iff epoch none el _ epoch el).2 ⟨rfl, h0 el hel⟩
+        rw [hp] at h; cases h
+      · rintro ⟨_, hor⟩
+        rcases hor with h9 | hf
+        · omega
+        · exact absurd hf hc.2
+
+/-- **issued_validity.** A certificate issued by `self_sign` / `sign_req` / `derive_cert` is `new_cert` applied to
+    the NotBefore / NotAfter texts of the two instants above — so `cert_wire`, `cert_signed_portion` and
+    `parse_cert_roundtrip` hold for it with these texts — and a calendar error surfaces unchanged. -/
+theorem issued_validity (keyName : List Bytes) (issuer version pubKey : Bytes) (signerInfo : List Value)
+    (i : Issue) (sg : SignerOut) :
+    (∀ m, issueCert keyName issuer version pubKey signerInfo i sg = .ok m ↔
+      ∃ s e, i.instants = .ok (s, e) ∧
+        newCert keyName issuer version pubKey signerInfo (fmtInstant s) (fmtInstant e) sg = .ok m) ∧
+    (∀ x, i.instants = .error x → issueCert keyName issuer version pubKey signerInfo i sg = .error x) := by
+  refine ⟨fun m => ?_, fun x h => ?_⟩
+  · unfold issueCert Issue.validity
+    simp only [bind, Except.bind, pure, Except.pure]
+    cases hi : i.instants with
+    | error y => simp
+    | ok se =>
+      obtain ⟨s, e⟩ := se
+      simp only [Except.ok.injEq, Prod.mk.injEq]
+      constructor
+      · intro h; exact ⟨s, e, ⟨rfl, rfl⟩, h⟩
+      · rintro ⟨s', e', ⟨rfl, rfl⟩, h⟩; exact h
+  · unfold issueCert Issue.validity
+    simp only [bind, Except.bind, h]
+
 /-! ### non-vacuity -/
 example : formatTime 2024 2 29 23 59 7 = [50, 48, 50, 52, 48, 50, 50, 57, 84, 50, 51, 53, 57, 48, 55] := by decide
 example : wfTop certValueFs = true := by decide
+deriving instance DecidableEq for Except
+-- the calendar on concrete dates: a leap day, the last day of the range, the epoch
+example : ymd2ord 2024 2 29 = 738945 ∧ ord2ymd 738945 = (2024, 2, 29) := by decide +kernel
+example : ord2ymd maxOrdinal = (9999, 12, 31) ∧ ord2ymd 1 = (1, 1, 1) := by decide +kernel
+example : fmtInstant epoch = [49, 57, 55, 48, 48, 49, 48, 49, 84, 48, 48, 48, 48, 48, 48] := by decide +kernel
+-- 2024-12-31T23:59:59 + 1 s = 2025-01-01T00:00:00; 23:30 at UTC+5:45 is 17:45 UTC; an hour before day 1 overflows
+example : addSeconds ⟨739251, 86399, 7⟩ 1 = .ok ⟨739252, 0, 7⟩ := by rfl
+example : toUtc ⟨739251, 84600, 0⟩ (some 345) = .ok ⟨739251, 63900, 0⟩ := by rfl
+example : addSeconds ⟨1, 0, 0⟩ (-3600) = .error .overflowError := by rfl
+-- self_sign on 29 February 2080: 2100 is not a leap year
+example : (Issue.self ⟨ymd2ord 2080 2 29, 0, 0⟩).instants = .error .valueError := by rfl
+example : (Issue.self ⟨ymd2ord 2024 2 29, 0, 0⟩).instants = .ok (epoch, ⟨ymd2ord 2044 2 29, 0, 0⟩) := by decide +kernel
 
 end Ndn.C16
